@@ -266,7 +266,8 @@ func (state *RuntimeState) webauthnAuthFinish(w http.ResponseWriter, r *http.Req
 	state.Mutex.Lock()
 	localAuth, ok := state.localAuthData[authData.Username]
 	state.Mutex.Unlock()
-	if !ok {
+	if !ok || localAuth.ExpiresAt.Before(time.Now()) ||
+		localAuth.WebAuthnChallenge == nil {
 		http.Error(w, "challenge missing", http.StatusBadRequest)
 		return
 	}
